@@ -299,29 +299,30 @@ class TunnelHTTPConnection(ConnectionInterface):
                 stream = connect_response.extensions["network_stream"]
 
                 # Upgrade the stream to SSL
-                ssl_context = (
-                    default_ssl_context()
-                    if self._ssl_context is None
-                    else self._ssl_context
-                )
-                alpn_protocols = ["http/1.1", "h2"] if self._http2 else ["http/1.1"]
-                ssl_context.set_alpn_protocols(alpn_protocols)
+                if self._remote_origin.scheme in (b"https", b"wss"):
+                    ssl_context = (
+                        default_ssl_context()
+                        if self._ssl_context is None
+                        else self._ssl_context
+                    )
+                    alpn_protocols = ["http/1.1", "h2"] if self._http2 else ["http/1.1"]
+                    ssl_context.set_alpn_protocols(alpn_protocols)
 
-                kwargs = {
-                    "ssl_context": ssl_context,
-                    "server_hostname": self._remote_origin.host.decode("ascii"),
-                    "timeout": timeout,
-                }
-                try:
-                    with Trace("start_tls", logger, request, kwargs) as trace:
-                        stream = stream.start_tls(**kwargs)
-                        trace.return_value = stream
-                except BaseException as exc:
-                    # The proxy connection is still servicing the CONNECT
-                    # request, so it needs closing if the tunnel isn't set up.
-                    with ShieldCancellation():
-                        self._connection.close()
-                    raise exc
+                    kwargs = {
+                        "ssl_context": ssl_context,
+                        "server_hostname": self._remote_origin.host.decode("ascii"),
+                        "timeout": timeout,
+                    }
+                    try:
+                        with Trace("start_tls", logger, request, kwargs) as trace:
+                            stream = stream.start_tls(**kwargs)
+                            trace.return_value = stream
+                    except BaseException as exc:
+                        # The proxy connection is still servicing the CONNECT
+                        # request, so it needs closing if the tunnel isn't set up.
+                        with ShieldCancellation():
+                            self._connection.close()
+                        raise exc
 
                 # Determine if we should be using HTTP/1.1 or HTTP/2
                 ssl_object = stream.get_extra_info("ssl_object")
